@@ -4212,6 +4212,18 @@ func (p *Posix) GetObjectAttributes(ctx context.Context, input *s3.GetObjectAttr
 }
 
 func (p *Posix) CopyObject(ctx context.Context, input s3response.CopyObjectInput) (*s3.CopyObjectOutput, error) {
+	var out *s3.CopyObjectOutput
+	var err error
+	for i := 0; i < readRetries; i++ {
+		out, err = p.copyObject(ctx, input)
+		if !errors.Is(err, errObjectReplaced) {
+			break
+		}
+	}
+	return out, err
+}
+
+func (p *Posix) copyObject(ctx context.Context, input s3response.CopyObjectInput) (*s3.CopyObjectOutput, error) {
 	if input.Bucket == nil {
 		return nil, s3err.GetAPIError(s3err.ErrInvalidBucketName)
 	}
@@ -4549,6 +4561,13 @@ func (p *Posix) CopyObject(ctx context.Context, input s3response.CopyObjectInput
 		}
 
 		verifhook.At("copy.src-attrs-read", srcBucket, srcObject)
+		// The data is read from the file opened above, metadata, tags and
+		// checksums were read through the path: they describe one object
+		// only if the path still names that file.
+		fi2, err := os.Stat(objPath)
+		if err != nil || !sameObjectFile(fi, fi2) {
+			return nil, errObjectReplaced
+		}
 		res, err := p.PutObject(ctx, putObjectInput)
 		if err != nil {
 			return nil, err
